@@ -253,6 +253,7 @@ package floatingip
 //@ func [C01,C05,C06,C09] (*crdIpam).ConfigurePool
 //@   requires ci.cacheLock != nil && ci.client != nil && held[ptr(ci.cacheLock)] == 0
 //@   requires forall i int :: 0 <= i && i < len(floatIPs) ==> floatIPs[i] != nil
+//@   requires forall p *FloatingIPPool, k int {p.NodeSubnets[k]} :: allocated(p) && 0 <= k && k < len(p.NodeSubnets) ==> p.NodeSubnets[k] != nil
 //@   requires forall p *FloatingIPPool, r int {p.IPRanges[r]} :: allocated(p) && 0 <= r && r < len(p.IPRanges) ==> nets.wfRange(p.IPRanges[r])
 //@   ensures [C01,C09,C06:reload-tables-disjoint] result == nil ==> ci.allocatedFIPs != nil && ci.unallocatedFIPs != nil && ci.allocatedFIPs != ci.unallocatedFIPs && forall k string :: !(k in ci.allocatedFIPs && k in ci.unallocatedFIPs)
 //@   ensures [C01,C09:reload-free-entries-blank] result == nil ==> forall k string :: k in ci.unallocatedFIPs ==> ci.unallocatedFIPs[k] != nil && freeEntry(ci.unallocatedFIPs[k]) && ci.unallocatedFIPs[k].pool != nil && ipstr(ci.unallocatedFIPs[k].IP) == k
@@ -261,6 +262,7 @@ package floatingip
 //@   loop 5,call:walkIPRanges#0/0,call:walkIPRanges#0/1 invariant freeTbl(ci, tmpCacheUnallocated) && ci.allocatedFIPs != nil && held[ptr(ci.cacheLock)] == 2
 //@   loop call:walkIPRanges#0/0,call:walkIPRanges#0/1 invariant fipConf != nil
 //@   loop 0,2,3,4,5 invariant forall i int :: 0 <= i && i < len(floatIPs) ==> floatIPs[i] != nil && allocated(floatIPs[i])
+//@   loop 0,1 invariant forall p *FloatingIPPool, k int {p.NodeSubnets[k]} :: allocated(p) && 0 <= k && k < len(p.NodeSubnets) ==> p.NodeSubnets[k] != nil
 //@   loop 0,1,2,3,4,5,call:walkIPRanges#0/0,call:walkIPRanges#0/1 invariant forall p *FloatingIPPool, r int {p.IPRanges[r]} :: allocated(p) && 0 <= r && r < len(p.IPRanges) ==> nets.wfRange(p.IPRanges[r])
 //@ func [C05,C09] (*crdIpam).listFloatingIPs trusted noeffect
 //@   ensures result1 == nil ==> result0 != nil
